@@ -201,4 +201,76 @@ example : hashFree exEll = true ∧ checkSat (rankSystem true exEll) [("e0", 2)]
     plainNames exNum = true ∧ sameStack exNum "n" = true ∧
     plainNames exAnon = true ∧ plainName "s" = true ∧ "s" ∉ exAnon.names := by decide +kernel
 
+/-! ### The reference solver on the short and the long form (partial)
+
+That `solveAll` returns literally the same verdict on both forms is NOT proved (unit propagation
+depends on the order and multiplicity of the equations, and the two value systems differ in both).
+What follows from the correspondences above and C02's `solveAll_sound`: the verdicts never
+contradict each other — if the solver determines one form completely (`unique`), it cannot refute the
+other (`rankNone` / `valueNone`). -/
+
+/-- A solution excludes the verdicts `rankNone` / `valueNone`. -/
+theorem solveAll_not_none_of_sol (inp : Input) (ρ σ : Var → Nat) (h : Sols inp ρ σ) :
+    solveAll inp ≠ .rankNone ∧ ∀ c, solveAll inp ≠ .valueNone c := by
+  have hs := solveAll_sound inp
+  constructor
+  · intro he; rw [he] at hs; exact hs ρ σ h
+  · intro c he; rw [he] at hs; exact hs ρ σ h
+
+/-- The verdict `unique c v` carries a solution. -/
+theorem solveAll_unique_sol (inp : Input) (c v : Assign) (h : solveAll inp = .unique c v) :
+    Sols inp (toFun c) (toFun v) := by
+  have hs := solveAll_sound inp
+  rw [h] at hs
+  exact hs.1
+
+/-- **Ellipsis = repetition, verdicts (partial)**: if the reference solver solves the short form
+(`unique c v`), it does not refute the long form written out with these counts; and if it solves the
+long form written out with admissible counts `ρ`, it does not refute the short form. -/
+theorem ellipsis_unroll_verdicts_partial (inp : Input) (hp : hashFree inp = true)
+    (hwf : ∀ c ∈ inp.constraints, c.vals.length = c.shape.foldr (· * ·) 1) :
+    (∀ c v, solveAll inp = .unique c v →
+      solveAll (unrollInput inp (toFun c)) ≠ .rankNone ∧ ∀ c', solveAll (unrollInput inp (toFun c)) ≠ .valueNone c') ∧
+    (∀ ρ, Sat (rankSystem true inp) ρ → ∀ c' v', solveAll (unrollInput inp ρ) = .unique c' v' →
+      solveAll inp ≠ .rankNone ∧ ∀ c, solveAll inp ≠ .valueNone c) := by
+  constructor
+  · intro c v h
+    have hs := solveAll_unique_sol inp c v h
+    obtain ⟨_, _, h3, _⟩ := ellipsis_unroll_plain inp (toFun c) hp hs.1 hwf
+    obtain ⟨σ', hs', _⟩ := h3 (toFun v) (toFun []) hs
+    exact solveAll_not_none_of_sol _ _ σ' hs'
+  · intro ρ hρ c' v' h
+    have hs := solveAll_unique_sol _ c' v' h
+    obtain ⟨_, _, _, h4⟩ := ellipsis_unroll_plain inp ρ hp hρ hwf
+    obtain ⟨σ, hs', _⟩ := h4 (toFun v') (toFun c') hs
+    exact solveAll_not_none_of_sol inp ρ σ hs'
+
+/-- **Anonymous = named ellipsis, verdicts (partial)**: a `unique` verdict on either form excludes a
+refutation of the other. -/
+theorem anonymous_ellipsis_verdicts_partial (inp : Input) (s : String) (hp : plainNames inp = true)
+    (hsp : plainName s = true) (hs : s ∉ inp.names) :
+    let long := renameInput (swapName anonAxis s) inp
+    (∀ c v, solveAll inp = .unique c v → solveAll long ≠ .rankNone ∧ ∀ c', solveAll long ≠ .valueNone c') ∧
+    (∀ c v, solveAll long = .unique c v → solveAll inp ≠ .rankNone ∧ ∀ c', solveAll inp ≠ .valueNone c') := by
+  intro long
+  constructor
+  · intro c v h
+    have hsol := solveAll_unique_sol inp c v h
+    obtain ⟨_, h2, _⟩ := anonymous_ellipsis_shared_plain inp s hp hsp hs (toFun c)
+    obtain ⟨σ', hs', _⟩ := h2 (toFun v) hsol
+    exact solveAll_not_none_of_sol _ _ σ' hs'
+  · intro c v h
+    have hsol := solveAll_unique_sol long c v h
+    obtain ⟨_, _, h3⟩ := anonymous_ellipsis_shared_plain inp s hp hsp hs (toFun c)
+    obtain ⟨σ, hs', _⟩ := h3 (toFun v) hsol
+    exact solveAll_not_none_of_sol inp _ σ hs'
+
+/-- Non-vacuity: both forms of the examples are solved (`unique`) — `Props/C07Stage2.lean` computes the
+verdicts; here only their kind. -/
+example : (match solveAll exEll with | .unique .. => true | _ => false) = true ∧
+    (match solveAll (unrollInput exEll (toFun [("e0", 2)])) with | .unique .. => true | _ => false) = true ∧
+    (match solveAll exAnon with | .unique .. => true | _ => false) = true ∧
+    (match solveAll (renameInput (swapName anonAxis "s") exAnon) with | .unique .. => true | _ => false) = true := by
+  decide +kernel
+
 end Einx.Solve
